@@ -157,6 +157,10 @@ func cmdWorker(args []string) int {
 	raceLog := fs.String("race-log", "", "GORACE log_path prefix (race build, free mode)")
 	fs.Parse(args)
 	raceOff := int64(0)
+	if *prop == "C19" && *raceLog == "" {
+		os.MkdirAll(*replays, 0o755)
+		walPath = filepath.Join(*replays, fmt.Sprintf("wal-%d.jsonl", os.Getpid()))
+	}
 	deadline := time.Now().Add(*budget)
 	profiles := propertyProfiles[*prop]
 	if len(profiles) == 0 {
@@ -421,6 +425,7 @@ func cmdCheck(args []string) int {
 	var mu sync.Mutex
 	var results []*RunResult
 	var workerErr []string
+	var deadWAL []string
 	var wg sync.WaitGroup
 	for i := 0; i < *workers; i++ {
 		wg.Add(1)
@@ -450,6 +455,9 @@ func cmdCheck(args []string) int {
 			}
 			if err := cmd.Wait(); err != nil {
 				mu.Lock()
+				if *prop == "C19" && cmd.Process != nil {
+					deadWAL = append(deadWAL, filepath.Join(replays, fmt.Sprintf("wal-%d.jsonl", cmd.Process.Pid)))
+				}
 				tail := stderr.String()
 				if len(tail) > 3000 {
 					tail = tail[len(tail)-3000:]
@@ -472,8 +480,39 @@ func cmdCheck(args []string) int {
 			exit = 2
 		}
 	}
+	crashViolations := 0
+	for _, wal := range deadWAL {
+		// C19: a worker that died is what a crash of the node process looks like. Rebuild the plan
+		// from its write-ahead log and confirm that replaying it kills a fresh process again.
+		plan, err := planFromWAL(wal)
+		if err != nil || len(plan.Steps) == 0 {
+			continue
+		}
+		plan.Property = "C19"
+		plan.Violation = &Violation{Property: "C19", Oracle: "process-died", Shape: "crash", Detail: "the simulator process (hosting the application) died while executing the last step of this plan", Step: len(plan.Steps) - 1}
+		path := filepath.Join(replays, fmt.Sprintf("C19-process-died-%x.json", plan.Seed))
+		if writePlan(path, plan) != nil {
+			continue
+		}
+		cmd := exec.Command(self, "replay", "-quiet", "-file", path)
+		out, _ := cmd.CombinedOutput()
+		code := -1
+		if cmd.ProcessState != nil {
+			code = cmd.ProcessState.ExitCode()
+		}
+		if code != 0 && code != 1 && (code != 2 || strings.Contains(string(out), "fatal error") || strings.Contains(string(out), "goroutine ")) {
+			tail := string(out)
+			if len(tail) > 1500 {
+				tail = tail[len(tail)-1500:]
+			}
+			fmt.Printf("violation: process-died/crash: replaying the plan kills the process (exit %d):\n%s\n", code, tail)
+			fmt.Printf("VIOLATION property=C19 replay=%s\n", path)
+			crashViolations++
+			workerErr = nil
+		}
+		os.Remove(wal)
+	}
 	for _, e := range workerErr {
-		// a worker that died: for C19 that is what a crash of the node process looks like
 		fmt.Fprintln(os.Stderr, "WORKER-DIED:", e)
 		exit = 2
 	}
@@ -527,6 +566,7 @@ func cmdCheck(args []string) int {
 		fmt.Printf("violation: %s/%s: %s\n", v.v.Oracle, v.v.Shape, v.v.Detail)
 		fmt.Printf("VIOLATION property=%s replay=%s\n", *prop, v.plan)
 	}
+	violations += crashViolations
 	ev.Violations = violations
 	if *raceBin != "" {
 		rv, rerr := raceSweep(*raceBin, *prop, *tier, seed, *workers, known, ev)
